@@ -168,6 +168,10 @@ type interpreter struct {
 	callLog map[*ssa.Function]int // per worker, cumulative
 
 	inInit         int
+	locks          map[*value]*lockInfo
+	lockEvents     int
+	atomicOps      int
+	atomicHook     func(fr *frame, p *value, write bool)
 	known          map[int]bool
 	concPos        int
 	trace          []string
@@ -203,6 +207,8 @@ func (i *interpreter) resetPath(prefix []int) {
 	i.nonASCIITotal += i.nonASCII
 	i.nonASCII = 0
 	i.logPoints = nil
+	i.locks = nil
+	i.atomicHook = nil
 	i.known = map[int]bool{}
 	i.concPos = 0
 	i.trace = nil
